@@ -153,13 +153,14 @@ Lemma cleanup_restores_reflect : forall x, cleanup_restores_b x = true <-> clean
 Proof.
   intros [[pre o] ob]. unfold cleanup_restores_b, cleanup_restores.
   rewrite orb_true_iff, negb_true_iff, forallb_seq. split.
-  - intros [Hn | H] Hc n Hlt Ho Hm; [congruence|].
-    specialize (H n Hlt). rewrite Ho, Hm in H. simpl in H.
+  - intros [Hn | H] Hc n Hlt Ho Hm Hg; [congruence|].
+    specialize (H n Hlt). rewrite Ho, Hm, Hg in H. simpl in H.
     apply andb_true_iff in H. destruct H as [H1 H2]. apply negb_true_iff in H1. apply negb_true_iff in H2. auto.
   - intros H. destruct (clean_pass o (o_ret ob)); [right | left; reflexivity].
     intros n Hlt. destruct (sn_owner pre n) eqn:Ho; [reflexivity|].
-    destruct (sn_mview pre n) eqn:Hm; [reflexivity|]. simpl.
-    destruct (H eq_refl n Hlt Ho Hm) as [H1 H2]. rewrite H1, H2. reflexivity.
+    destruct (sn_mview pre n) eqn:Hm; [reflexivity|].
+    destruct (n_gone (sn_fact pre n)) eqn:Hg; [reflexivity|]. simpl.
+    destruct (H eq_refl n Hlt Ho Hm Hg) as [H1 H2]. rewrite H1, H2. reflexivity.
 Qed.
 
 Lemma is_started_eq : forall r, is_started r = true <-> r = Started.
